@@ -49,6 +49,7 @@ def run_one(uname, ucfg, tier):
         if tier == "thorough" and rl:
             rl = rl * 4
         return verus_run.run_unit(uname, ucfg.get("properties", []), rlimit=rl,
+                                  extra_args=ucfg.get("extra_args", []),
                                   timeout=ucfg.get("timeout", 900))
     elif backend == "kani":
         import kani_run
